@@ -13,6 +13,15 @@ def attr_of(var, name):
     return var.attrs[name]
 
 
+def is_whole(q):
+    """q is a whole number (natively: up to the rounding of the quotient)"""
+    return abs(q - round(q)) <= 1e-9 * max(1.0, abs(q))
+
+
+def whole_part(q):
+    return int(round(q))
+
+
 def on_lattice(c, start, step, i):
     """c is the i-th lattice point start + i*step (natively: up to the accumulated rounding of numpy.arange)"""
     return abs(c - (start + i * step)) <= 1e-9 * abs(step) + (i + 2) * 2.3e-16 * max(abs(start), abs(start + i * step), 1.0)
@@ -23,7 +32,8 @@ class CreateRangeDim:
     types = {"name": "str", "start": "float", "stop": "float", "step": "Optional[float]", "size": "Optional[int]", "dtype": "None"}
 
     def requires(start, stop, step, size):
-        return stop > start and (step is None or step > 0) and (size is None or size > 0)
+        # an empty range (stop == start) needs an explicit step: a step derived from the size would be 0
+        return stop >= start and (step is None or step > 0) and (size is None or size > 0) and (step is not None or stop > start)
 
     def raises_ValueError(step, size):
         return step is None and size is None
@@ -35,16 +45,17 @@ class CreateRangeDim:
         # coordinates are the lattice points start + i*step, all inside [start, stop)
         lattice = forall(n, lambda i: on_lattice(c[i], start, st, i) and start <= c[i] and c[i] < stop)
         # exactly (stop - start)/step of them when that is a whole number
-        whole = forall(n + 2, lambda k: implies(k >= 1 and k * st == stop - start, n == k))
+        whole = implies(is_whole((stop - start) / st), n == whole_part((stop - start) / st))
         return lattice and whole and attr_of(result, "step") == st
 
 
 class CreateTimeRange:
     target = "soundevent.arrays.dimensions:create_time_range"
     types = {"start_time": "float", "end_time": "float", "step": "Optional[float]", "samplerate": "Optional[float]", "name": "str", "dtype": "None"}
+    result_builder = "xr_variable"
 
     def requires(start_time, end_time, step, samplerate):
-        return end_time > start_time and (step is None or step > 0) and (samplerate is None or samplerate > 0)
+        return end_time >= start_time and (step is None or step > 0) and (samplerate is None or samplerate > 0)
 
     def raises_ValueError(step, samplerate):
         return step is None and samplerate is None
@@ -52,8 +63,10 @@ class CreateTimeRange:
     def ensures(start_time, end_time, step, samplerate, result):
         st = step if step is not None else 1.0 / samplerate
         c = coords_of(result)
-        return (forall(len(c), lambda i: on_lattice(c[i], start_time, st, i) and c[i] < end_time) and attr_of(result, "step") == st
-                and attr_of(result, "units") == "s")
+        n = len(c)
+        return (forall(n, lambda i: on_lattice(c[i], start_time, st, i) and c[i] < end_time) and attr_of(result, "step") == st
+                and attr_of(result, "units") == "s"
+                and implies(is_whole((end_time - start_time) / st), n == whole_part((end_time - start_time) / st)))
 
 
 class GetCoordIndex:
